@@ -766,7 +766,50 @@ func (in *Interp) fmtArg(v Value, verb byte) Str {
 	return in.fmtArgT(v, nil, verb)
 }
 
+// hexBytes renders bytes as lower/upper-case hex digits (term-level, no forking).
+func hexBytes(bs []*term.Term, upper bool) Str {
+	out := make([]*term.Term, 0, 2*len(bs))
+	a := uint64('a')
+	if upper {
+		a = 'A'
+	}
+	digit := func(n *term.Term) *term.Term { // n: 8-bit term holding 0..15
+		return term.Ite(term.ULt(n, term.BVC(8, 10)), term.Add(n, term.BVC(8, '0')), term.Add(n, term.BVC(8, a-10)))
+	}
+	for _, b := range bs {
+		out = append(out, digit(term.LShr(b, term.BVC(8, 4))), digit(term.BAnd(b, term.BVC(8, 15))))
+	}
+	return Str{out}
+}
+
 func (in *Interp) fmtArgT(v Value, t types.Type, verb byte) Str {
+	if verb == 'x' || verb == 'X' {
+		switch x := v.(type) {
+		case Str:
+			return hexBytes(x.B, verb == 'X')
+		case Slice:
+			bs := make([]*term.Term, 0, len(x.Cells))
+			ok := true
+			for _, c := range x.Cells {
+				bt, isT := c.V.(*term.Term)
+				if !isT || bt.Sort != term.BV(8) {
+					ok = false
+					break
+				}
+				bs = append(bs, bt)
+			}
+			if ok {
+				return hexBytes(bs, verb == 'X')
+			}
+		case *term.Term:
+			if x.IsConst() && x.Sort.K == term.KBV {
+				if verb == 'X' {
+					return StrOf(strings.ToUpper(strconv.FormatUint(x.U, 16)))
+				}
+				return StrOf(strconv.FormatUint(x.U, 16))
+			}
+		}
+	}
 	switch x := v.(type) {
 	case Str:
 		if verb == 'q' {
